@@ -183,6 +183,33 @@ fn all_frames() -> (Vec<Frame>, usize) {
             }
         }
     }
+    // the same replies with member names spelled with JSON escapes (`"\u0065rror"` is the member
+    // `error`): each of the three names alone, and all at once
+    const NAMES: [(&str, &str); 3] = [("\"error\":", "\"\\u0065rror\":"), ("\"parameters\":", "\"\\u0070arameters\":"), ("\"continues\":", "\"\\u0063ontinues\":")];
+    for f in &base {
+        let mut all = f.text.clone();
+        for (plain, escaped) in NAMES {
+            if f.text.contains(plain) {
+                out.push(Frame { text: f.text.replacen(plain, escaped, 1), has_error: f.has_error, error_name: f.error_name.clone(), what: format!("{}; member name {plain} spelled with an escape", f.what) });
+                all = all.replacen(plain, escaped, 1);
+            }
+        }
+        if all != f.text {
+            out.push(Frame { text: all, has_error: f.has_error, error_name: f.error_name.clone(), what: format!("{}; every member name spelled with an escape", f.what) });
+        }
+        // ... and the error's name itself (its first character and the first one after the last dot)
+        if let Some(name) = f.error_name.as_deref().filter(|n| !n.is_empty()) {
+            let plain = format!("\"error\":\"{name}\"");
+            let esc = |i: usize| format!("\"error\":\"{}\\u{:04x}{}\"", &name[..i], name.as_bytes()[i] as u32, &name[i + 1..]);
+            let mut at = vec![0usize];
+            if let Some(d) = name.rfind('.').filter(|d| d + 1 < name.len()) {
+                at.push(d + 1);
+            }
+            for i in at {
+                out.push(Frame { text: f.text.replacen(&plain, &esc(i), 1), has_error: true, error_name: f.error_name.clone(), what: format!("{}; character {i} of the error name spelled with an escape", f.what) });
+            }
+        }
+    }
     (out, n)
 }
 
@@ -298,6 +325,9 @@ fn one(fr: &[Frame], i: u64, sink: &mut Sink<'_>) {
     };
     if f.has_error {
         sink.goal("reply-with-error-member");
+        if f.text.contains("\\u0065rror") {
+            sink.goal("error-member-spelled-with-an-escape");
+        }
         if f.text.contains("\"n\":7") {
             sink.goal("error-reply-whose-parameters-fit-the-success-type");
             if f.text.len() > 1024 {
@@ -328,7 +358,7 @@ fn one(fr: &[Frame], i: u64, sink: &mut Sink<'_>) {
 pub fn run(tier: Tier) -> i32 {
     let mut rep = Report::new("C04", tier.name());
     let (fr, nbase) = all_frames();
-    rep.rule = format!("complete product: {} reply frames ({nbase} base frames + each bulked up to 300/1100/2100/4700 bytes in up to four meaning-preserving ways: whitespace, an unknown member in front / at the end, a long string parameter; base frames: success / declared unit and struct errors with right, wrong-typed, missing, extra, absent parameters / undeclared errors / the six org.varlink.service errors with and without their parameters / error replies whose parameters fit the expected success type; x continues absent|true|false x every member order) x 5 expected parameter types x 3 error types (derived, derived with lifetime, empty enum) x {{receive_reply, call_method, receive_reply as the second frame of one arrival}}. Distinct = distinct (frame, types, classification)", fr.len());
+    rep.rule = format!("complete product: {} reply frames ({nbase} base frames + each bulked up to 300/1100/2100/4700 bytes in up to four meaning-preserving ways: whitespace, an unknown member in front / at the end, a long string parameter; + each with its member names spelled with JSON escapes; base frames: success / declared unit and struct errors with right, wrong-typed, missing, extra, absent parameters / undeclared errors / the six org.varlink.service errors with and without their parameters / error replies whose parameters fit the expected success type; x continues absent|true|false x every member order) x 5 expected parameter types x 3 error types (derived, derived with lifetime, empty enum) x {{receive_reply, call_method, receive_reply as the second frame of one arrival}}. Distinct = distinct (frame, types, classification)", fr.len());
     rep.assumptions = vec![
         "an error type `recognises` a reply iff the reply's error name is one of its declared variants and serde_json decodes the frame as that type".into(),
         "a standard error is one whose name is in org.varlink.service and which decodes as varlink_service::Error; ill-formed ones must simply not be a success".into(),
@@ -336,6 +366,7 @@ pub fn run(tier: Tier) -> i32 {
     rep.require_goal("reply-with-error-member");
     rep.require_goal("error-reply-whose-parameters-fit-the-success-type");
     rep.require_goal("long-error-reply-whose-parameters-fit-the-success-type");
+    rep.require_goal("error-member-spelled-with-an-escape");
     let cfg = Config { max_wall: std::time::Duration::from_secs(tier.pick(60, 600)), ..Default::default() };
     let n = fr.len() as u64 * NP as u64 * NE as u64 * PATHS.len() as u64;
     rep.add(sweep("product", n, &cfg, |i, s| one(&fr, i, s)));
